@@ -146,9 +146,9 @@ CONFIGS = [
     ("notag", "notag", 0, 1, "csv", "nc.gz", True),
     ("full", "full", 1, 0, "ncrich", "ncrich", False),
     ("noend", "full", 1, 0, "txt.bz2", "nc", True),
-    # (renaming a .zip without conversion keeps the bytes but not the member name typhon's decompress looks for:
-    #  outside the property, see DESIGN.md) 
     ("full", "notag", 0, 1, "pkl.zip", "pkl.zip", True),
+    # renaming zip archives WITHOUT conversion: the bytes are kept and the moved file must still read back
+    ("full", "noend", 1, 1, "pkl.zip", "pkl.zip", False),
     ("full", "full", 2, 0, "pkl", "pkl", False),           # day-of-year spelling of start and end across New Year
     ("full", "full", 1, 2, "nc", "nc", False),
     ("full", "noend", 0, 1, "pkl-post", "pkl-post", False),   # post_reader is applied on every read, and only on reads
